@@ -8,7 +8,8 @@ export ZSYM_REPO="$REPO"
 fail=0
 for d in seeded/*/; do
   name=$(basename "$d")
-  props=$(python3 -c "import json;d=json.load(open('$d/meta.json'));print(' '.join(d.get('caught_by') or [d['property']]))")
+  props=$(python3 -c "import json;d=json.load(open('$d/meta.json'));print('SKIP' if d.get('not_claimed') else ' '.join(d.get('caught_by') or [d['property']]))")
+  if [ "$props" = SKIP ]; then echo "$name: not claimed (see meta.json)"; continue; fi
   if ! git -C "$REPO" apply "$PWD/$d/patch.diff" 2>/dev/null; then echo "$name: patch does not apply"; fail=1; continue; fi
   for prop in $props; do
     out=$(./check.sh "$prop" quick 2>&1); rc=$?
